@@ -277,6 +277,10 @@ func popcount(b uint32) (n int) {
 type RegServer struct {
 	Idx       int
 	Url       string
+	Ip        string
+	Port      uint32
+	RawDC     string // as sent in the first heartbeat
+	RawRack   string
 	DC, Rack  string
 	Connected bool
 	Vols      map[uint32]RegVol
@@ -285,12 +289,15 @@ type RegServer struct {
 }
 
 type RegModel struct {
+	mu      sync.Mutex
 	Servers map[int]*RegServer
 }
 
 func NewRegModel() *RegModel { return &RegModel{Servers: make(map[int]*RegServer)} }
 
 func (m *RegModel) server(idx int) *RegServer {
+	m.mu.Lock()
+	defer m.mu.Unlock()
 	s := m.Servers[idx]
 	if s == nil {
 		s = &RegServer{Idx: idx}
@@ -338,6 +345,7 @@ func (m *RegModel) ApplyBeat(idx int, hb *master_pb.Heartbeat) BeatInfo {
 		bi.First = true
 		s.Connected = true
 		s.Url = fmt.Sprintf("%s:%d", hb.Ip, hb.Port)
+		s.Ip, s.Port, s.RawDC, s.RawRack = hb.Ip, hb.Port, hb.DataCenter, hb.Rack
 		s.DC, s.Rack = hb.DataCenter, hb.Rack
 		if s.DC == "" {
 			s.DC = "DefaultDataCenter"
@@ -476,6 +484,41 @@ func (m *RegModel) ApplyBeat(idx int, hb *master_pb.Heartbeat) BeatInfo {
 		s.Ec = ne
 	}
 	return bi
+}
+
+// Server returns the model of server idx (created on first use).
+func (m *RegModel) Server(idx int) *RegServer { return m.server(idx) }
+
+// ResyncBeats builds the full volume heartbeat and the full EC heartbeat that
+// re-register exactly the server's currently registered state (used after a
+// listed finding: the server's session is dropped and re-established so that the
+// master's incremental counters start from zero again and nothing cascades).
+func (s *RegServer) ResyncBeats() (full, ec *master_pb.Heartbeat) {
+	full = &master_pb.Heartbeat{Ip: s.Ip, Port: s.Port, PublicUrl: s.Url, DataCenter: s.RawDC, Rack: s.RawRack,
+		MaxVolumeCounts: map[string]uint32{}, MaxFileKey: 1}
+	for k, v := range s.Max {
+		full.MaxVolumeCounts[k] = uint32(v)
+	}
+	ids := make([]uint32, 0, len(s.Vols))
+	for id := range s.Vols {
+		ids = append(ids, id)
+	}
+	sort.Slice(ids, func(i, j int) bool { return ids[i] < ids[j] })
+	for _, id := range ids {
+		full.Volumes = append(full.Volumes, FullVolMsg(s.Vols[id]))
+	}
+	full.HasNoVolumes = len(full.Volumes) == 0
+	ec = &master_pb.Heartbeat{}
+	ids = ids[:0]
+	for id := range s.Ec {
+		ids = append(ids, id)
+	}
+	sort.Slice(ids, func(i, j int) bool { return ids[i] < ids[j] })
+	for _, id := range ids {
+		ec.EcShards = append(ec.EcShards, EcMsg(s.Ec[id]))
+	}
+	ec.HasNoEcShards = len(ec.EcShards) == 0
+	return
 }
 
 // Disconnect forgets everything the server's session had registered.
